@@ -67,3 +67,28 @@ Definition wit_text : string := print_json F wit_pnum plain_pstr compact_opts (j
 Definition case_witness (doc : json F) (text : string) : Z :=
   if negb (json_eqb F (json_encode F json_schema_id wit_archive) doc) then 7%Z
   else if negb (String.eqb wit_text text) then 8%Z else (-1)%Z.
+
+(* ---------- the namespace-prefix test of xml_format.archive_to_xml, over code points ---------- *)
+Local Close Scope float_scope.
+Definition cp_in (rs : list (BinNums.N * BinNums.N)) (c : BinNums.N) : bool :=
+  existsb (fun r => (N.leb (fst r) c && N.leb c (snd r))%bool) rs.
+
+(* [start][char]*\Z *)
+Definition prefix_ok (start chars : list (BinNums.N * BinNums.N)) (p : list BinNums.N) : bool :=
+  match p with
+  | [] => false
+  | c :: r => (cp_in start c && forallb (cp_in chars) r)%bool
+  end.
+
+(* NameStartChar and NameChar of XML 1.0 (5th edition), production [4] and [4a], without ':' --
+   i.e. the NCName of Namespaces in XML 1.0; written from the W3C text, in its order *)
+Definition xml10_ncname_start : list (BinNums.N * BinNums.N) :=
+  [(65, 90); (95, 95); (97, 122); (192, 214); (216, 246); (248, 767); (880, 893); (895, 8191);
+   (8204, 8205); (8304, 8591); (11264, 12271); (12289, 55295); (63744, 64975); (65008, 65533);
+   (65536, 983039)]%N.
+Definition xml10_ncname_char : list (BinNums.N * BinNums.N) :=
+  List.app xml10_ncname_start [(45, 45); (46, 46); (48, 57); (183, 183); (768, 879); (8255, 8256)]%N.
+
+(* model verdict on a prefix = whether archive_to_xml accepted it *)
+Definition case_prefix (p : list BinNums.N) (accepted : bool) : Z :=
+  agree (prefix_ok xml_prefix_start xml_prefix_char p) accepted 9%Z.
